@@ -167,6 +167,7 @@ def main():
 
     known = [k for k in load_known() if k['property'] == pid]
     violations = []
+    skipped_after_violation = []
     known_hits = []
     held = 0
     nontrivial = 0
@@ -212,8 +213,15 @@ def main():
         # counterexample extraction + native replay, one per failed check
         E = plan.ENGINES[engine]
         for msg in mine:
+            if violations:
+                # one replayed violation is enough to fail the check; extracting a
+                # trace costs minutes per failed check
+                skipped_after_violation.append(f'{h}: {msg}')
+                continue
             needle = msg.strip('"')
-            goto = r.get('goto_file') or cex.find_goto(os.path.join(CACHE, f'target-{engine}'), E['crate'], h)
+            goto = (r.get('goto_file') or '').replace('.symtab.out', '.out')
+            if not (goto and os.path.exists(goto)):
+                goto = cex.find_goto(os.path.join(CACHE, f'target-{engine}'), E['crate'], h)
             ids = cex.property_ids(goto, needle) if goto and os.path.exists(goto) else []
             got = None
             why = 'no goto binary / property id'
@@ -276,6 +284,7 @@ def main():
             'harnesses_held': held,
             'known_findings_seen': [k['id'] for k, _, _ in known_hits],
             'inconclusive': inconclusive,
+            'failed_checks_not_replayed_after_first_violation': skipped_after_violation,
             'kani': 'kani 0.68.0 / CBMC 6.11.0 / CaDiCaL',
             'repo_tree_hash': key_by_engine,
             'exhaustive': False,
@@ -295,4 +304,11 @@ def main():
 
 
 if __name__ == '__main__':
-    sys.exit(main())
+    try:
+        rc = main()
+    except Exception:  # noqa: a crash of the driver is never a verdict
+        import traceback
+        traceback.print_exc()
+        print('INCONCLUSIVE: driver error (see traceback)')
+        rc = 2
+    sys.exit(rc)
